@@ -67,12 +67,27 @@ def run(prop, tier, seed, replay=None):
         meta = json.load(open(os.path.join(replay, "meta.json")))
         jobs = [(meta["seed"], meta["history"] + 1, meta.get("events", 70), meta["history"])]
     elif tier == "quick":
-        jobs = [(seed * 100 + i, 30, 70, None) for i in range(6)]
+        jobs = [(seed * 100 + i, 30, 70, None) for i in range(8)]
     else:
         jobs = [(seed * 100 + i, 150, 90, None) for i in range(16)]
 
+    if not replay and prop in ("C05", "C06"):
+        # exhaustive small-scope exploration of the real table (K forced to 2): (per-mille of transitions logged, states expanded)
+        jobs.append(("exh", seed, (40, 250) if tier == "quick" else (250, 0), None))
+
     def one(job):
         s, n, events, only = job
+        if s == "exh":
+            out = os.path.join(wd, "trace-exh.ndjson")
+            rc, so, se = vlib.run_driver(binary, ["-exh", events[0], "-exhmax", events[1], "-seed", n, "-out", out], timeout=3000)
+            if rc != 0:
+                if rc is not None and "panic:" in (se or ""):
+                    return "exh", out, dict(crash=(se or "")[-6000:]), None, events
+                raise vlib.Inconclusive("exhaustive routing-table exploration failed (rc=%s): %s" % (rc, (se or "")[-3000:]))
+            st = json.loads(so.strip().splitlines()[-1])
+            tv = vlib.validate_trace("Trace_RoutingTable", ("Trace_RoutingTable_k2.cfg", "Trace_RoutingTable_k2_relaxed.cfg"), out, INV_PROPS,
+                                     timeout=3000)
+            return "exh", out, st, tv, events
         out = os.path.join(wd, "trace-%d.ndjson" % s)
         st = drive(binary, s, n, events, out, only)
         if "crash" in st:
@@ -99,6 +114,9 @@ def run(prop, tier, seed, replay=None):
             continue
         events_total += st["events"]
         hist += st["histories"] if not replay else 1
+        if s == "exh":
+            cov["exhaustive_real_code"] = dict(states_expanded=st["states"], transitions_validated=st["transitions"],
+                                               note="breadth-first over the abstract states the real Server reaches with bucket size 2 and a 6-sender alphabet, security on and off")
         cov["traces_validated_against_impl"] += tv["accepted_segments"]
         for i in tv["inconclusive"]:
             v.inconclusive.append(i)
